@@ -28,6 +28,7 @@ Section NesterovLoop.
 
   Definition vzero3 : V3 F := V zero zero zero.
   Definition all_zero (a : V3 F) : bool := (vx a =? zero) && (vy a =? zero) && (vz a =? zero).
+  Definition v3_eqb (a b : V3 F) : bool := (vx a =? vx b) && (vy a =? vy b) && (vz a =? vz b).   (* float `==` per coordinate *)
 
   (** (new live rows, ray, inside) *)
   Definition proj := (list (V3 F) * V3 F * bool)%type.
@@ -200,6 +201,12 @@ Section NesterovLoop.
         if all_zero rd then ray s else rd
     else ray s.
 
+  (** F-N4 repair: `if use_nesterov_acceleration and i >= max_interations // 4: use_nesterov_acceleration = False`,
+      executed after the [ray_len < tolerance] test and before the direction of the pass is formed *)
+  Definition cutoff (max_interations : nat) (s : nstate) : nstate :=
+    if acc s && (max_interations / 4 <=? it s)%nat
+    then NS (simplex s) (ray s) (ray_len s) (ray_dir s) (support_point s) (alpha s) (it s) false else s.
+
   Inductive pass_result :=
   | PDone (e : @inner_exit F)          (* the loop is left; (inside, distance) = Nesterov.finish tolerance inflation e *)
   | PErr
@@ -224,6 +231,11 @@ Section NesterovLoop.
         if (0 <? it s)%nat && cv then
           if acc s then PNext (NS (simplex s) (ray s) (ray_len s) rd w alpha' (it s) false)     (* continue *)
           else PDone (EConverged (ray_len s))
+        else
+        (* F-N5 repair: `duplicate` - the new support point equals a live row of the simplex *)
+        if existsb (v3_eqb w) (simplex s) then
+          if acc s then PNext (NS (simplex s) (ray s) (ray_len s) rd w alpha' (it s) false)     (* continue *)
+          else PDone (EDuplicate (ray_len s))
         else
           let pr : option proj :=
             match sx with
@@ -253,6 +265,7 @@ Section NesterovLoop.
       if (it s <? max_interations)%nat then
         if ray_len s <? tolerance then (rev dirs, ans ERayShort (it s))
         else
+          let s := cutoff max_interations s in
           match trace with
           | [] => (rev dirs, NTrace)
           | (s0, s1) :: rest =>
@@ -284,6 +297,7 @@ Section NesterovLoop.
       if (it s <? max_interations)%nat then
         if ray_len s <? tolerance then (ans ERayShort (it s), evals)
         else
+          let s := cutoff max_interations s in
           let '(s0, s1) := sup (vneg (next_dir normalize s)) in
           match pass normalize tolerance upper_bound inflation s s0 s1 with
           | PDone e => (ans e (it s), S evals)
